@@ -116,6 +116,70 @@ def worker(argt):
         return {"fatal": traceback.format_exc()}
 
 
+def miri_cross_target(target, seed, nreq, rep, features=None):
+    """Interpret the executor for another architecture under Miri (code paths that do not compile natively on this host:
+    aarch64 -> modint32.rs as ModInt256ct, zz32 by default, portable BLAKE2s and carry primitives; riscv64 -> gf255_m51 by
+    default). The responses are judged by the reference oracles and compared with the native default build."""
+    import subprocess
+    import c01, c05, c12, c17, c04, c11
+    import groups
+    rng = random.Random(seed * 31 + 5)
+    cases = []
+    names = ["gf25519", "gf255e", "scgls254", "sc25519", "gf448", "gfsecp256k1", "sc448"]
+    cases += c01.gen(rng, 0, 1, names, 6, 12)
+    cases += c05.gen(rng, 0, 1, names, 3, 4)
+    cases += c12.gen(rng, 0, 1, ["scgls254", "gf25519", "gf255e"], 4, 4)
+    cases += c11.gen(rng, 0, 1, 1, 2)
+    cases += c17.gen(rng, 0, 1, 1, False)
+    cases += c04.gen(rng, 0, 1, ["gls254", "jq255e", "ed25519"], 2, False)
+    cases = [c for c in cases if c.only is None]
+    rng.shuffle(cases)
+    lines = []
+    keep = []
+    for c in cases:
+        if len(lines) + len(c.lines) > nreq:
+            continue
+        keep.append(c)
+        lines.extend(c.lines)
+    env = cargo_env("")
+    env["MIRIFLAGS"] = "-Zmiri-disable-isolation -Zmiri-disable-stacked-borrows"
+    cmd = ["cargo", "+nightly", "miri", "run", "--offline", "--target", target, "--manifest-path", os.path.join(HARNESS, "Cargo.toml"),
+           "--target-dir", os.path.join(TARGET, "miri-" + target.split("-")[0])]
+    if features:
+        cmd += ["--features", features]
+    label = "miri/" + target.split("-")[0]
+    try:
+        p = subprocess.run(cmd, input=("\n".join(lines) + "\n").encode(), stdout=subprocess.PIPE, stderr=subprocess.PIPE, env=env, timeout=5400)
+    except subprocess.TimeoutExpired:
+        rep.incon.append(label + ": watchdog fired")
+        return
+    out = p.stdout.decode(errors="replace").split("\n")
+    if out and out[-1] == "":
+        out.pop()
+    err = p.stderr.decode(errors="replace")
+    if "Undefined Behavior" in err:
+        rep.viol.append(dict(config=label, lines=lines[max(0, len(out) - 2):len(out) + 1], got=err[-1500:], why="Miri reported undefined behaviour"))
+    if len(out) != len(lines):
+        rep.incon.append("%s: %d of %d responses (rc=%s): %s" % (label, len(out), len(lines), p.returncode, err[-400:]))
+        return
+    exe = build("default")
+    nat, _ = run_exec(exe, lines)
+    pos = 0
+    for c in keep:
+        k = len(c.lines)
+        rs = out[pos:pos + k]
+        for (i, got, why) in check_case(c, rs):
+            rep.viol.append(dict(config=label, lines=c.lines, index=i, got=got, why="oracle: " + why))
+        for i in range(k):
+            a_, b_ = strip_steps(nat[pos + i])[0], strip_steps(rs[i])[0]
+            if a_ != b_ and (c.expect[i] is None or isinstance(c.expect[i], str)):
+                rep.viol.append(dict(config="default-vs-" + label, lines=c.lines, index=i, got="native: %s | %s: %s" % (a_[:150], label, b_[:150]),
+                                     why="cross-target interpretation disagrees with the native build"))
+        pos += k
+    rep.events += len(lines)
+    rep.per_config[label] = len(lines)
+
+
 def main(argv):
     a = parse_args(argv)
     if a.replay:
@@ -149,9 +213,15 @@ def main(argv):
             for k, v in r["per_config"].items():
                 rep.per_config[k] = rep.per_config.get(k, 0) + v
             allowed += r["diverging_allowed"]
+        if a.tier == "thorough":
+            for tgt in ("aarch64-unknown-linux-gnu", "riscv64gc-unknown-linux-gnu"):
+                try:
+                    miri_cross_target(tgt, a.seed, int(160 * a.scale), rep)
+                except Inconclusive as e:
+                    rep.incon.append("miri %s: %s" % (tgt, e))
         rep.extra["responses_differing_within_documented_freedom"] = allowed
         rep.extra["configurations"] = cfgs
-        if len(rep.per_config) < len(cfgs):
+        if len([k for k in rep.per_config if not k.startswith("miri/")]) < len(cfgs):
             rep.incon.append("not every configuration produced output")
     except Inconclusive as e:
         rep.incon.append(str(e))
